@@ -62,6 +62,9 @@ pub fn e2e_cases_leg(args: &Args, ncases: u64, stream: u64, leg: Option<(String,
       acc.count(&format!("e2e_longest_match_wait_{}", bucket(out.max_match_s)), 1);
       acc.count(&format!("e2e_longest_delivery_wait_{}", bucket(out.max_deliver_s)), 1);
     }
+    if out.completed && sc.acts.iter().any(|a| matches!(a, stk2::Act::OccupyUserPort(_))) {
+      acc.count("e2e_scenarios_completed_with_a_well_known_user_port_already_taken", 1);
+    }
     if out.completed {
       acc.count("e2e_scenarios_completed", 1);
       acc.count(if sc.with_key { "e2e_scenarios_with_key" } else { "e2e_scenarios_no_key" }, 1);
@@ -127,7 +130,7 @@ fn secure_case(seed: u64, stream: u64, i: u64, ncases: u64, fixtures: &std::path
 pub fn run_c07(args: &Args) -> i32 {
   let mut rep = Report::new(
     args,
-    "two or three real DomainParticipants in one process and domain (real loopback UDP, public API only): participants (started on helper threads), topics, publishers/subscribers, 2-6 readers/writers created in a random dependency-respecting order with random pauses, writers writing before anybody has matched; then every compatible pair must report the match on both sides within 40 s of unstalled time; then values (30 sizes, both sides of the 1024-byte fragment limit, every residue mod 4) and disposals are written under seeded datagram loss of 0-20 % on ALL traffic and every reliable reader must hold what a keep-all writer wrote after the match (keep-last: the last d) - identical bytes, writer order, no duplicates; then a late joiner (TransientLocal: must get the retained history; Volatile: must get nothing written before it existed), possibly on a brand-new participant; then a reader / writer / participant is deleted and every matched peer on another participant must report current_count_change -1; then traffic among the survivors; in one scenario in six an outage longer than the 10 s lease (every participant, or only one, stops hearing the others: receive-side tap) after the main traffic, after which everybody must be matched with everybody again and traffic must flow; then (3 scenarios in 4) a new endpoint of the kind that would match what was deleted is created on a surviving participant: it must match every living compatible endpoint, must not report a match with a deleted endpoint whose deletion an endpoint of the same participant has already reported (a match with a deleted endpoint nobody there could observe must be taken back within the unmatch bound), and traffic flows; distinct = hash of scenario; non-trivial = >=2 values compared",
+    "two or three real DomainParticipants in one process and domain (real loopback UDP, public API only): participants (started on helper threads), topics, publishers/subscribers, 2-6 readers/writers created in a random dependency-respecting order with random pauses, writers writing before anybody has matched, in one scenario in six with the well-known user-traffic port of one participant id already bound by somebody else (that participant then listens elsewhere); then every compatible pair must report the match on both sides within 40 s of unstalled time; then values (30 sizes, both sides of the 1024-byte fragment limit, every residue mod 4) and disposals are written under seeded datagram loss of 0-20 % on ALL traffic and every reliable reader must hold what a keep-all writer wrote after the match (keep-last: the last d) - identical bytes, writer order, no duplicates; then a late joiner (TransientLocal: must get the retained history; Volatile: must get nothing written before it existed), possibly on a brand-new participant; then a reader / writer / participant is deleted and every matched peer on another participant must report current_count_change -1; then traffic among the survivors; in one scenario in six an outage longer than the 10 s lease (every participant, or only one, stops hearing the others: receive-side tap) after the main traffic, after which everybody must be matched with everybody again and traffic must flow; then (3 scenarios in 4) a new endpoint of the kind that would match what was deleted is created on a surviving participant: it must match every living compatible endpoint, must not report a match with a deleted endpoint whose deletion an endpoint of the same participant has already reported (a match with a deleted endpoint nobody there could observe must be taken back within the unmatch bound), and traffic flows; distinct = hash of scenario; non-trivial = >=2 values compared",
   );
   rep.assume("bounds (40 s each for match, delivery, unmatch) are measured in time during which the harness thread itself was being scheduled (steps of at most 100 ms), so a stalled machine cannot produce a verdict; typical waits are printed as counters");
   rep.assume("a KeepAll writer retains at least the last 32 samples for TransientLocal late joiners (the implementation's resource limit); more than that is not demanded");
